@@ -12,7 +12,7 @@ def run(ctx):
     ctx.rule = ('case = pipeline (backend, circuit, round-trip variant of each of cs / pk / vk / proof / witness; <= 2 round trips) on one curve; '
                 'non-trivial = at least one artifact round-tripped')
     ctx.assumptions += ['cross-version compatibility of encodings is not promised by gnark and not checked',
-                        'circuits: 14 shape / corpus circuits covering hints, lookup blueprints, commitments, logs, emulated arithmetic']
+                        'circuits: 15 shape / corpus circuits covering hints, lookup blueprints, commitments, logs, emulated arithmetic']
     r = ctx.tlc('Artifacts', 'Artifacts.cfg', workers=1)
     behs = r.beh
     for i, b in enumerate(behs):
